@@ -343,6 +343,7 @@ def run_batch(spec):
         try:
             ok = one_program(c["prog"], c["version"], rng, ctr, viols, nontrivial)
             if ok:
+                common.release_tealer_caches()
                 out["cases"] += 1
         except CaseTimeout:
             out["inconclusive"] += 1
